@@ -27,26 +27,38 @@ REQUIRED_THEOREMS = [
     "C05_unknown",
     "C05_private_segments",
     "C05_private",
+    "C05_none_attribute",
+    "C05_noncallable_attribute",
+    "C05_instance_dispatch",
     "C05_params",
+    "C05_frameless_typeerror",
     "C05_params_iff",
+    "C05_params_iff_framed",
     "C05_params_instance",
     "C05_internal",
+    "C05_internal_instance",
     "C05_internal_custom",
     "C05_codes_predefined",
     "C05_client",
     "C05_client_v1",
+    # companions of the extracted facts: lean/JRV/Properties/C05Gen.lean (built and audited separately)
     "C05_gen_faultSites",
     "C05_gen_dispatchHandlers",
     "C05_gen_tbNextTest",
     "C05_gen_dottedAllowed",
     "C05_gen_loadsGuarded",
+    "C05_gen_handlersOnlyReport",
+    "C05_gen_methodUnmodified",
 ]
 
 MONITORS = [("codes", sc.monitor_c05)]
 
 RULE = ("as C02 with emphasis on method names against registries of functions and instances with public/private/nested "
-        "attributes, argument lists/maps of every arity against 11 fixed and random signatures, 12 exception classes "
-        "(TypeError and subclasses raised inside the body, KeyError, Unicode and empty messages); plus bind() against real "
+        "attributes (also bound to None / not callable), unregistered variants of registered names (padded, case-changed, "
+        "NUL, NFKC look-alikes), argument lists/maps of every arity against 11 fixed and random signatures, every ordinary "
+        "builtin exception class (+3 user classes) built with no / one / many / non-JSON arguments and texts of 0..5000 "
+        "characters with braces and percent signs, raised at frame depth 0 (registered builtins, partials) / 1 (the def's own "
+        "frame: raise, \"x\"+5, len(5), a nested mis-call) / 2 / 3 and behind a decorator; plus bind() against real "
         "defs, resolveDotted against xmlrpc.server.resolve_dotted_attribute, and the exception raised by a real ServerProxy "
         "looped onto the dispatcher for each of the five codes")
 
@@ -139,6 +151,28 @@ CLIENT_CASES = [
     ("custom", "raise", [1], None, -32603),
     ("custom", "te", [], None, -32603),
     ("instdisp", "raise", [], None, -32603),
+    # names that are not the registered name
+    ("both", " add", [1, 2], None, -32601),
+    ("both", "add ", [1, 2], None, -32601),
+    ("both", "ADD", [1, 2], None, -32601),
+    ("both", "add\x00", [1, 2], None, -32601),
+    ("both", "\uff41\uff44\uff44", [1, 2], None, -32601),
+    # TypeErrors of the body at every frame depth, expression errors, decorators, partials, callable objects
+    ("depth", "te1", [1], None, -32603),
+    ("depth", "te3", [1], None, -32603),
+    ("depth", "concat", [7], None, -32603),
+    ("depth", "len5", [], None, -32603),
+    ("depth", "nonecall", [1], None, -32603),
+    ("depth", "decote", [1], None, -32603),
+    ("depth", "objte", [1], None, -32603),
+    ("depth", "partboom", [1], None, -32603),
+    ("depth", "noargs_exc", [], None, -32603),
+    ("depth", "longtext", [], None, -32603),
+    ("depth", "te1", [], None, -32602),
+    ("depth", "part", [1, 2, 3], None, -32602),
+    ("depth", "divmod", [1], None, -32602),
+    ("customraise", "noargs", [], None, -32603),
+    ("instraise", "many", [], None, -32603),
 ]
 
 
